@@ -174,6 +174,9 @@ def _interp_job(job):
 
 def _job(job):
     cls, shape, mp = job
+    via_method = cls == "FNode.substitute"      # the entry point on the node (environment's substituter, most-general)
+    if via_method:
+        cls = MG
     mode = "mg" if cls == MG else "ms"
 
     def call(w, it, f):
@@ -182,6 +185,8 @@ def _job(job):
         m = {}
         for k, v in mp:
             m[proc.build_shape(w, k.t)] = proc.build_shape(w, v.t)
+        if via_method:
+            return (dict(m), it.call(it.getattr(f, "substitute"), [m]))
         return (m, it.call(it.getattr(sub, "substitute"), [f, m]))
 
     def post(w, f, r, facts):
@@ -216,7 +221,7 @@ def _job(job):
         return proc.ProcResult(shape, "valid", "= reference %s" % ("MGS" if mode == "mg" else "MSS"), rs)
     res = proc.run_proc(shape, call, post=post, services=True)
     mstr = "{%s}" % ", ".join("%r: %r" % (k, v) for k, v in mp)
-    return [(cls.split(".")[-1], "%r with %s" % (shape, mstr), r.kind, str(r.detail), r.result) for r in res]
+    return [("FNode.substitute" if via_method else cls.split(".")[-1], "%r with %s" % (shape, mstr), r.kind, str(r.detail), r.result) for r in res]
 
 
 def run(ctx):
@@ -227,6 +232,7 @@ def run(ctx):
     for shape, mp in cases():
         jobs.append((MG, shape, mp))
         jobs.append((MS, shape, mp))
+        jobs.append(("FNode.substitute", shape, mp))
     ijobs = [(c, shape, ip) for shape, ip in interp_cases() for c in (MG, MS)]
     for res in parallel_map(_job, jobs) + parallel_map(_interp_job, ijobs):
         for name, case, kind, detail, result in res:
